@@ -19,6 +19,7 @@ API (import as `from harness.lib import turnrig as TR`)
       cfg          dict deep-merged over the rig defaults and passed through `configs.validate.validate_config`
                    (`cfg_raw: true` skips validation — for malformed-config streams)
       agent        agent id (default "a1");  now_ms int (default 0);  now  str|None (ctx.now)
+      store_hooks  bool: the rig store also offers `export_state()` / `import_state()` (sites store_hook_export/import)
       store        "rig" (default: InMemoryGraphStore subclass with MiniStore-like `apply_deltas` over
                    ProposedDelta and a `.w` weight map, fault switches) | "none" | "nofn" (no apply_deltas)
       graph        {"nodes": [[id,label],..], "edges": [[id,src,dst,weight,rel],..]} for g:surface
@@ -40,6 +41,10 @@ API (import as `from harness.lib import turnrig as TR`)
       {"mode":"stub","ret": <spec>}        scripted recording stub; `ret` is a JSON-able spec turned into the
                                            object the orchestrator expects (see `_make_ret`)
       {"mode":"stub","ret":..,"raise_nth":k,"exc":..}  stub that raises on its k-th call
+      {"mode":"mangle","how":"bad_score"|"none_entry"|"no_ids"}  run the real callable, then damage its output
+                                           (list-of-dict returning sites such as quality_fuse / quality_mmr)
+    Exception names may carry a message-shape variant `"<Type>:<variant>"` (see `EXC_VARIANTS`: noargs, empty, ws,
+    multiline, nonstr, strraises = `__str__` raises); `Run.raised["type"]` is always the base type name.
     Convenience: `TR.fault(site, exc, nth=None)`, `TR.stub(ret, raise_nth=None, exc=...)`.
     Sites: stages `t1 t2 deliberate rag speak llm_speak dialogue t4 apply health`; run_turn subsystems `boot_load
     gel_observe gel_tick gel_merge_candidates gel_apply_merge gel_split_candidates gel_apply_split gel_promote_clusters
@@ -103,12 +108,48 @@ EXC_POOL: Dict[str, type] = {
 }
 
 
+#: message shapes an injected exception can have: `"<Type>"` or `"<Type>:<variant>"`
+EXC_VARIANTS = ("msg", "noargs", "empty", "ws", "multiline", "nonstr", "strraises")
+
+
+def exc_type_name(name: str) -> str:
+    return str(name).split(":", 1)[0]
+
+
 def make_exc(name: str) -> Exception:
-    cls = EXC_POOL.get(name, RigFault)
+    """`"KeyError"` -> KeyError("injected:KeyError"); `"OSError:noargs"` -> OSError(); variants: msg (default),
+    noargs, empty (""), ws (whitespace-only), multiline, nonstr (non-string args), strraises (an instance of a
+    same-named subclass whose `__str__`/`__repr__` raise)."""
+    tname, _, variant = str(name).partition(":")
+    cls = EXC_POOL.get(tname, RigFault)
     try:
+        if variant in ("", "msg"):
+            return cls(f"injected:{tname}")
+        if variant == "noargs":
+            return cls()
+        if variant == "empty":
+            return cls("")
+        if variant == "ws":
+            return cls("  \t ")
+        if variant == "multiline":
+            return cls(f"\ninjected:{tname}\nsecond line\r\n\n")
+        if variant == "nonstr":
+            return cls(7, {"a": [1, None]}, b"\xff")
+        if variant == "strraises":
+            def _boom(self):
+                raise RuntimeError("__str__ of the injected exception raises")
+            sub = type(cls.__name__, (cls,), {"__str__": _boom, "__repr__": _boom})
+            return sub("x")
         return cls(f"injected:{name}")
     except Exception:
         return RigFault(f"injected:{name}")
+
+
+def safe_str(e: BaseException, limit: int = 200) -> str:
+    try:
+        return str(e)[:limit]
+    except Exception:
+        return "<unprintable exception>"
 
 
 # ---------------------------------------------------------------------------------------------
@@ -161,6 +202,10 @@ SITES: Dict[str, Tuple[str, str, str]] = {
     "store_apply_batch": ("", "", "store"),   # the first (batch) apply_deltas call of a turn
     "store_apply_each": ("", "", "store"),    # every single-delta call
     "store_apply_all": ("", "", "store"),     # every apply_deltas call
+    # hooks the snapshot writer / boot loader call on the store (world spec `store_hooks: true` gives the store
+    # `export_state` / `import_state`; without it the writer falls back to the `.w` weight map)
+    "store_hook_export": ("", "", "store"),   # store.export_state() raises (snapshot-cadence turns)
+    "store_hook_import": ("", "", "store"),   # store.import_state() raises (boot, snapshot with store.state)
     # state["logs"] list whose append raises (inside t3 emit_trace body)
     "t3_trace_logs": ("", "", "logs"),
 }
@@ -286,6 +331,7 @@ def _make_store(kind: str, spec: dict):
             self.rig_fault: Dict[str, str] = {}   # "batch"/"each"/"all" -> exc name
             self.rig_turn_calls = 0
             self.rig_hits: List[str] = []
+            self.rig_hook_calls: List[str] = []
 
         def apply_deltas(self, graph_id, deltas):  # type: ignore[override]
             n = self.rig_turn_calls
@@ -314,10 +360,27 @@ def _make_store(kind: str, spec: dict):
                     edits += 1
             return {"edits": edits, "clamps": clamps}
 
+    class RigStoreHooks(RigStore):
+        """RigStore that also offers the structured export/import hooks `snapshot.py` prefers."""
+
+        def export_state(self):
+            self.rig_hook_calls.append("export_state")
+            if "export" in self.rig_fault:
+                self.rig_hits.append("store_hook_export")
+                raise make_exc(self.rig_fault["export"])
+            return {"w": sorted([list(k), v] for k, v in self.w.items())}
+
+        def import_state(self, st):
+            self.rig_hook_calls.append("import_state")
+            if "import" in self.rig_fault:
+                self.rig_hits.append("store_hook_import")
+                raise make_exc(self.rig_fault["import"])
+            self.w = {tuple(k): float(v) for k, v in (st or {}).get("w", [])}
+
     class NoFnStore(InMemoryGraphStore):
         apply_deltas = None  # type: ignore[assignment]
 
-    st = RigStore() if kind == "rig" else NoFnStore()
+    st = (RigStoreHooks() if spec.get("store_hooks") else RigStore()) if kind == "rig" else NoFnStore()
     g = spec.get("graph") or {}
     st.ensure("g:surface")
     if g.get("nodes"):
@@ -452,6 +515,22 @@ def _make_ret(site: str, spec: Any):
     return copy.deepcopy(spec)
 
 
+def _mangle(site: str, r: Any, how: str) -> Any:
+    items, rest = (r[0], r[1:]) if isinstance(r, tuple) else (r, None)
+    items = [dict(it) if isinstance(it, dict) else it for it in (items or [])]
+    if how == "bad_score":
+        for j, it in enumerate(items):
+            if isinstance(it, dict):
+                it["score_fused"] = ["n/a", [], {}, None, "1e"][j % 5]
+    elif how == "none_entry":
+        items = items + [None]
+    elif how == "no_ids":
+        for it in items:
+            if isinstance(it, dict):
+                it.pop("id", None)
+    return (items,) + tuple(rest) if rest is not None else items
+
+
 def _summ(site: str, args: tuple, kwargs: dict) -> Dict[str, Any]:
     """Gate-relevant, JSON-able summary of a call's arguments."""
     info: Dict[str, Any] = {}
@@ -556,6 +635,13 @@ def _patched(run: Run, behaviours: Dict[str, dict], world: World):
                 info["raised"] = beh.get("exc", "RigFault")
                 run.fault_hits.append(site)
                 raise make_exc(beh.get("exc", "RigFault"))
+            if mode == "mangle":
+                # run the REAL callable, then damage what it returned (a subsystem that "succeeds" with malformed
+                # output); `how`: bad_score | none_entry | no_ids
+                r = orig(*args, **kwargs)
+                run.fault_hits.append(site)
+                info["mangled"] = beh.get("how")
+                return _mangle(site, r, beh.get("how", "bad_score"))
             if mode == "stub":
                 if site == "hybrid_rerank":
                     return (args[2], {})
@@ -660,7 +746,10 @@ def _patched(run: Run, behaviours: Dict[str, dict], world: World):
             run.fault_hits.extend(st.rig_hits)
             for c in st.rig_calls:
                 run.calls.append(("store_apply_deltas", {"n": c}))
+            for c in getattr(st, "rig_hook_calls", []):
+                run.calls.append(("store_" + c, {}))
             st.rig_hits, st.rig_calls = [], []
+            st.rig_hook_calls = []
             st.rig_fault.clear()
 
 
@@ -761,7 +850,7 @@ def run_turn(world: World, text: str, turn_id: Any = 1, behaviours: Optional[Dic
             except RigError:
                 raise
             except Exception as e:
-                run.raised = {"type": type(e).__name__, "msg": str(e)[:200]}
+                run.raised = {"type": type(e).__name__, "msg": safe_str(e)}
         finally:
             iolog._append_jsonl_unbuffered = real_unbuf
     world.turns_run += 1
